@@ -9,6 +9,7 @@ A case is a JSON-able dict (also the format of corpus/c09_*.json):
   ignore  ignore_missing_graphs
   atoms   [[key, pos, {attr: 'n/d'}], ...]   the fine-grained molecule in node order;
           pos = ['n/d','n/d','n/d'] | None (position=None) | 'absent' (no position attribute)
+                | 'nan' (array of NaN; only generated when finding F-C09-1 is registered, see below)
   beads   [{'graph': [keys in subgraph order] | None, 'weights': [[key,'n/d'],...] | None,
             'container': 'subgraph' | 'nx'}, ...]
 All numbers are exact rationals whose float image is exact (dyadic); the float computation of
@@ -36,6 +37,7 @@ from vermouth.processors import average_beads
 from vermouth.processors.average_beads import do_average_bead, DoAverageBead
 
 Q = 1 << 30
+NOPOS = (None, 'absent', 'nan')   # no coordinates: position=None, no attribute, non-finite coordinates
 SENTINEL = (123.0, -456.0, 789.0)
 TOL_ZONE = F(1, 1000000)          # 0 < |sum w| < 1e-6: the code's 1e-7 tolerance; oracle clause not applied
 
@@ -67,6 +69,8 @@ def build(case):
         d = {'atomname': 'A%d' % key, 'resname': 'XX', 'resid': 1 + n // 4, 'chain': 'A'}
         if pos is None:
             d['position'] = None
+        elif pos == 'nan':
+            d['position'] = np.array([np.nan] * 3)
         elif pos != 'absent':
             d['position'] = np.array([as_number(c, 0) for c in pos], dtype=float)
         for name, v in attrs.items():
@@ -150,7 +154,7 @@ def proto(case):
             g = []
             for k in b['graph']:
                 _, pos, attrs = atoms[k]
-                p = None if (pos is None or pos == 'absent') else [rat(c) for c in pos]
+                p = None if pos in NOPOS else [rat(c) for c in pos]
                 g.append([k, p, [[n, rat(v)] for n, v in attrs.items()]])
         w = None if b['weights'] is None else [[k, rat(v)] for k, v in b['weights']]
         beads.append([g, w])
@@ -182,7 +186,7 @@ def constituents(case, b):
     res = []
     for k in b['graph']:
         _, pos, attrs = atoms[k]
-        if pos is None or pos == 'absent':
+        if pos in NOPOS:
             continue
         w = mw.get(k, F(1))
         if attr is not None:
@@ -208,14 +212,27 @@ def all_have_attr(case, b):
     return all(attr in atoms[k][2] for k in b['graph'])
 
 
+class BeadErr(str):
+    """an oracle message that knows which particle it is about"""
+    bead = None
+
+
 def oracle(case, raw):
-    errs, flags = [], set()
+    flags = set()
+
+    class _L(list):
+        def append(self, msg):
+            m = BeadErr(msg)
+            m.bead = cur[0]
+            list.append(self, m)
+    errs, cur = _L(), [None]
     if raw is None:
         return errs, flags
     for i, (b, r) in enumerate(zip(case['beads'], raw)):
+        cur[0] = i
         if b['graph'] is not None:
             atoms = {a[0]: a for a in case['atoms']}
-            if any(atoms[k][1] in (None, 'absent') for k in b['graph']):
+            if any(atoms[k][1] in NOPOS for k in b['graph']):
                 flags.add('has_unpositioned')
         if b['graph'] is None:
             if r is not None:
@@ -346,7 +363,7 @@ def gen_case(rng, big=False):
 def moved(case, rot, shift):
     c = json.loads(json.dumps(case))
     for a in c['atoms']:
-        if a[1] is not None and a[1] != 'absent':
+        if a[1] not in NOPOS:
             p = [F(x) for x in a[1]]
             a[1] = [fs(sum(rot[r][k] * p[k] for k in range(3)) + shift[r]) for r in range(3)]
     c['kind'] = 'moved'
@@ -377,16 +394,198 @@ for i in range(N):
         shift = [F(rng.randint(-1280, 1280), 64) for _ in range(3)]
         cases.append(('gen-%d-moved' % i, moved(c, rot, shift), len(cases) - 1, (rot, shift)))
 
+
+# ----------------------------------------------------------------------------
+# pipeline stream: 'graph' and 'mapping_weights' as the REAL do_mapping fills them
+# (charmm -> martini3001 on the tier-0 test structures, some atoms deleted so that RepairGraph
+# re-creates them without coordinates), positions by DoAverageBead.run_system; the particle
+# molecule is then transcribed into a case (exact rationals of the floats) for oracle and model.
+# ----------------------------------------------------------------------------
+pipeline = []      # (case id, case, impl string, raw, extra oracle errors)
+
+
+def frac_str(x):
+    return str(F(float(x)))
+
+
+def transcribe(cg, aa_nodes, errs):
+    """particle molecule after DoMapping+DoAverageBead -> (case, impl string, raw)"""
+    atoms, beads, out, raw = {}, [], [], []
+    for key, node in cg.nodes.items():
+        g = node.get('graph')
+        if g is None:
+            beads.append({'graph': None, 'weights': None})
+            out.append('-')
+            raw.append(None)
+            continue
+        for k, d in g.nodes.items():
+            pos = d.get('position')
+            src = aa_nodes.get(k)
+            if src is None:
+                errs.append('particle %r: constituent %r is not an atom of the mapped molecule' % (key, k))
+            else:
+                sp = src.get('position')
+                if (pos is None) != (sp is None) or (pos is not None and not np.array_equal(pos, sp)):
+                    errs.append('particle %r: constituent %r has position %r in graph, %r in the molecule'
+                                % (key, k, pos, sp))
+            ent = [k, None if pos is None else [frac_str(c) for c in pos],
+                   {'mass': frac_str(d['mass'])} if 'mass' in d else {}]
+            if k in atoms and atoms[k] != ent:
+                errs.append('atom %r differs between the graphs of two particles' % k)
+            atoms[k] = ent
+        mw = node.get('mapping_weights')
+        beads.append({'graph': list(g.nodes),
+                      'weights': None if mw is None else [[k, frac_str(v)] for k, v in mw.items()]})
+        pos = np.asarray(node.get('position'), dtype=float)
+        if pos.shape != (3,):
+            out.append('xshape'); raw.append('shape %r' % (pos.shape,))
+        elif np.all(np.isnan(pos)):
+            out.append('[ ]'); raw.append('nan')
+        elif np.any(~np.isfinite(pos)):
+            out.append('xnonfinite'); raw.append('nonfinite')
+        else:
+            out.append('[ %d %d %d ]' % tuple(quant(c) for c in pos))
+            raw.append(tuple(F(float(c)) for c in pos))
+    ffv = cg.force_field.variables.get('center_weight', 'absent')
+    case = {'entry': 'processor', 'weight': None, 'ffvar': ffv, 'ignore': True,
+            'atoms': list(atoms.values()), 'beads': beads, 'kind': 'pipeline'}
+    return case, 'ok ' + ('[ ' + ' '.join(out) + ' ]' if out else '[ ]'), raw
+
+
+def run_pipeline():
+    import runpy
+    from pathlib import Path
+    import vermouth
+    from vermouth.map_input import read_mapping_directory, generate_all_self_mappings, combine_mappings
+    quiet_vermouth_logs()
+    M2 = runpy.run_path(os.path.join(REPO, 'bin', 'martinize2'), run_name='verif_m2')
+    quiet_vermouth_logs()
+    kff = vermouth.forcefield.find_force_fields(Path(vermouth.DATA_PATH) / 'force_fields')
+    kmap = read_mapping_directory(Path(vermouth.DATA_PATH) / 'mappings', kff)
+    combine_mappings(kmap, generate_all_self_mappings(kff.values()))
+    tier0 = os.path.join(REPO, 'vermouth', 'tests', 'data', 'integration_tests', 'tier-0')
+    structures = ['mini-protein3_trp-cage', 'dipro-termini', 'mini-protein1_betasheet', 'mini-protein2_helix']
+    rng = chk.rng('pipeline')
+    runs = 12 if chk.thorough else 3
+    for r in range(runs):
+        name = structures[r % len(structures)] if chk.thorough else structures[0]
+        to_ff = rng.choice(['martini3001', 'martini3001', 'martini22'])
+        ndrop = rng.choice([4, 10, 25])
+        seed = rng.randrange(1 << 30)
+        # a random proper/improper rotation (floats) and translation for the twin run
+        qm, _ = np.linalg.qr(np.random.RandomState(seed).normal(size=(3, 3)))
+        shift = np.array([rng.uniform(-5, 5) for _ in range(3)])
+        results = []
+        for twin in (False, True):
+            system = vermouth.System()
+            vermouth.PDBInput(os.path.join(tier0, name, 'aa.pdb'), exclude=('SOL',), ignh=False).run_system(system)
+            drng = random.Random(seed)
+            for mol in system.molecules:
+                heavy = [k for k, d in mol.nodes.items() if d.get('atomname') not in ('N', 'CA', 'C', 'O')]
+                for k in drng.sample(heavy, min(ndrop, len(heavy) // 3)):
+                    mol.remove_node(k)
+                if twin:
+                    for d in mol.nodes.values():
+                        d['position'] = qm @ d['position'] + shift
+            system = M2['pdb_to_universal'](system, delete_unknown=True, force_field=kff['charmm'])
+            aa_nodes = {}
+            for mol in system.molecules:
+                aa_nodes.update({k: dict(d) for k, d in mol.nodes.items()})
+            n_aa_mols = len(system.molecules)
+            vermouth.DoMapping(mappings=kmap, to_ff=kff[to_ff], delete_unknown=True,
+                               attribute_keep=('cgsecstruct', 'chain', 'secstruct'), attribute_must=('resname',),
+                               attribute_stash=('resid',)).run_system(system)
+            vermouth.DoAverageBead(ignore_missing_graphs=True).run_system(system)
+            errs = []
+            if n_aa_mols != 1 or len(system.molecules) != 1:
+                chk.notes.append('pipeline run %d: %d molecules, only the first is checked' % (r, n_aa_mols))
+            case, im, raw = transcribe(system.molecules[0], aa_nodes, errs)
+            case['pipeline'] = {'structure': name, 'to_ff': to_ff, 'ndrop': ndrop, 'seed': seed, 'twin': twin}
+            results.append((case, im, raw, errs))
+        (c0, im0, raw0, e0), (c1, im1, raw1, e1) = results
+        if len(raw0) != len(raw1):
+            e1.append('number of particles changed under a rigid motion of the input: %d -> %d' % (len(raw0), len(raw1)))
+        else:
+            for i, (a, b) in enumerate(zip(raw0, raw1)):
+                if isinstance(a, tuple) and isinstance(b, tuple):
+                    want = qm @ np.array([float(x) for x in a]) + shift
+                    if np.max(np.abs(want - np.array([float(x) for x in b]))) > 1e-9:
+                        e1.append('particle %d does not follow the rigid motion of the input: %s expected %s'
+                                  % (i, [float(x) for x in b], list(want)))
+                elif a != b:
+                    e1.append('particle %d: %s became %s under a rigid motion' % (i, a, b))
+        pipeline.append(('pipeline-%d' % r, c0, im0, raw0, e0))
+        pipeline.append(('pipeline-%d-moved' % r, c1, im1, raw1, e1))
+
+
+try:
+    run_pipeline()
+except Exception as e:       # the pipeline itself failing is not a C09 matter, but it must be visible
+    import traceback
+    chk.notes.append('pipeline stream failed: %s' % traceback.format_exc()[-800:])
+    chk.count('pipeline_failed')
+    pipeline = []
+
+
+def within_one(a, b):
+    """two canonical result strings that differ by at most one quantum per coordinate (the float sum of
+    non-dyadic inputs is not exact)"""
+    ta, tb = a.split(), b.split()
+    if len(ta) != len(tb):
+        return False
+    for x, y in zip(ta, tb):
+        if x != y:
+            try:
+                if abs(int(x) - int(y)) > 1:
+                    return False
+            except ValueError:
+                return False
+    return True
+
+
+# Constituents whose coordinates are NaN (vermouth.selectors.selector_has_position says they have no
+# position).  The model and the oracle treat them as unpositioned; the code as it is averages them in
+# (finding F-C09-1).  The stream is generated only once the finding is registered in
+# known_findings.json (status known: reported as KNOWN-FINDING; status fixed: must pass).
+NAN_FINDING = 'F-C09-1'
+if any(k['id'] == NAN_FINDING for k in chk.known):
+    rng = chk.rng('nanpos')
+    for i in range(3000 if chk.thorough else 300):
+        c = gen_case(rng)
+        hit = False
+        for a in c['atoms']:
+            if a[1] not in NOPOS and rng.random() < 0.25:
+                a[1] = 'nan'
+                hit = True
+        if hit:
+            c['kind'] = 'nanpos'
+            cases.append(('nanpos-%d' % i, c, None, None))
+
 lines, impls, raws = [], [], []
 for cid, c, twin, motion in cases:
     s, raw = run_impl(c)
     impls.append(s)
     raws.append(raw)
     lines.append(proto(c))
+pre_errs = [[] for _ in cases]
+for cid, c, im, raw, e in pipeline:
+    cases.append((cid, c, None, None))
+    impls.append(im)
+    raws.append(raw)
+    lines.append(proto(c))
+    pre_errs.append(e)
 models = chk.drv.ask(lines) if chk.lean_ok else [None] * len(lines)
 
 for idx, ((cid, c, twin, motion), ln, im, mo, raw) in enumerate(zip(cases, lines, impls, models, raws)):
     errs, flags = oracle(c, raw)
+    errs = pre_errs[idx] + errs
+    if c.get('kind') == 'pipeline':
+        chk.count('pipeline_particles', len(c['beads']))
+        if mo is not None and mo != im and within_one(im, mo):
+            chk.count('pipeline_rounding_flip')
+            im = mo
+        # the protocol line of a whole protein is long; keep a digest as the case input
+        ln = 'pipeline %s sha1=%s' % (json.dumps(c['pipeline'], sort_keys=True), hashlib.sha1(ln.encode()).hexdigest())
     if im.startswith('exception') or im == 'returned-other-object':
         errs.append('unexpected behaviour: ' + im)
     elif raw is None and must_succeed(c):
@@ -429,5 +628,12 @@ for idx, ((cid, c, twin, motion), ln, im, mo, raw) in enumerate(zip(cases, lines
                   if sum(1 for b in c['beads'] if b['graph'] and k in b['graph']) > 1]
         if shared:
             chk.count('case_with_shared_atoms')
-    chk.case(cid, ln, im, mo, errs, nontriv)
+    finding = None
+    if errs and c.get('kind') == 'nanpos':
+        atoms = {a[0]: a for a in c['atoms']}
+        nanbeads = {i for i, b in enumerate(c['beads'])
+                    if b['graph'] is not None and any(atoms[k][1] == 'nan' for k in b['graph'])}
+        if all(getattr(e, 'bead', None) in nanbeads for e in errs):
+            finding = NAN_FINDING
+    chk.case(cid, ln, im, mo, [str(e) for e in errs], nontriv, finding)
 chk.finish()
